@@ -23,7 +23,8 @@ RULE = (
     "remove, move, sort, meta, clear ...) on the copy side or on the source side). Oracle: faithful (copies are new "
     "node objects holding the *same* data objects under the same data_ids and kinds, same order/shape for deep, a "
     "single childless node for shallow, placed as `before` says, copy()/Node.copy() return a tree of the source's "
-    "class) via the independent model; source unchanged (full observation incl. top-level order) after the copy; "
+    "class; a copy of the copy and a branch copy taken inside the copy are as faithful) via the independent model; "
+    "source unchanged (full observation incl. top-level order) after the copy; "
     "independence: after every later mutation of one side the full observation of the other side is unchanged. In a "
     "third of the cross-tree cases the target tree calculates data_ids by another rule than the source tree (a "
     "calc_data_id callback on one side only): the copies must still carry the source's data_ids. "
@@ -117,6 +118,33 @@ def run(case, rec):
         problems, _ = structural(cp)
         if problems:
             rec.fail(f"{kind}:copy-malformed:{problems[0][0]}", problems[0][1])
+            return
+        # a copy is an ordinary tree: copying it again (whole, and one of its inner branches) is as faithful
+        try:
+            cp2 = cp.copy()
+            v2, _w2 = plain_view(cp2)
+            rec.evals += 1
+            if strip(v2) != strip(got_view) or type(cp2) is not type(cp):
+                rec.fail("copy-of-a-copy:faithful", {"copy": _pretty(cp), "copy-of-copy": _pretty(cp2)})
+                return
+            inner = next((n for n in w_cp.pre if w_cp.kids[id(n)]), None)
+            if inner is not None:
+                cp3 = inner.copy()
+                v3, _w3 = plain_view(cp3)
+                rec.evals += 1
+
+                def one_cp(n):
+                    return [id(n.data), n.data_id, getattr(n, "kind", None), [one_cp(c) for c in w_cp.kids[id(n)]]]
+
+                exp3 = [one_cp(inner)]
+                if typed and "D10a" in known and exp3[0][2] != "child":
+                    exp3[0][2] = "child"
+                    rec.excl("D10a")
+                if strip(v3) != exp3:
+                    rec.fail("branch-copy-of-a-copy:faithful", {"copy": _pretty(cp), "branch-copy": _pretty(cp3)})
+                    return
+        except Exception as e:  # noqa: BLE001
+            rec.fail("copy-of-a-copy:raises", repr(e)[:200])
             return
         side_trees = (cp, src)
         rec.nt(len(w_cp.pre) >= 2 and _interesting(w_cp, typed))
